@@ -18,7 +18,8 @@ CONSTANTS Ctors,      \* subset of node constructors to enumerate
           MaxSubs,    \* subscriptions per behaviour
           MaxVars, MaxNodes, MaxObs, MaxActs, MaxRounds, MaxH,
           Late,       \* BOOLEAN: allow node creation after the first observer
-          Export      \* BOOLEAN: print REPLAY lines
+          Export,     \* BOOLEAN: print REPLAY lines
+          ExportMod   \* export about one behaviour in ExportMod (seeded sampling)
 
 VARIABLES st, hist, coneB, acts
 
@@ -51,6 +52,17 @@ Do(a, s) == /\ st' = ApiClearLogs(s)
 ---------------------------------------------------------------------------
 (* Program construction                                                     *)
 IntF1 == Fs1 \cap {"id", "inc", "const0", "min1"}
+\* side effects attached to a map function (DESIGN 3.2)
+EffChoices ==
+  {<<>>}
+  \cup (IF "panic" \in Effs THEN {<<[e |-> "panic", at |-> k]>> : k \in 1..2} ELSE {})
+  \cup (IF "set" \in Effs
+        THEN {<<[e |-> "set", v |-> v, op |-> op, x |-> x]>> :
+                v \in {n \in Nodes : st.def[n].k = "var" /\ Tag(st.def[n].init) = "i"},
+                op \in Ops \cap {"set", "update", "replace"}, x \in {I(1)}}
+        ELSE {})
+  \cup (IF "read" \in Effs THEN {<<[e |-> "read", o |-> 1]>>} ELSE {})
+  \cup (IF "stabilise" \in Effs THEN {<<[e |-> "stabilise"]>>} ELSE {})
 Create ==
   /\ Quiet /\ Creating
   /\ \/ /\ "var" \in Ctors /\ NumVars < MaxVars
@@ -69,8 +81,8 @@ Create ==
      \/ /\ "const" \in Ctors
         /\ \E v \in Vals : Do([a |-> "const", v |-> v], ApiConst(st, v))
      \/ /\ "map" \in Ctors
-        /\ \E f \in IntF1, n \in IntNodes :
-             Do([a |-> "map", f |-> f, in |-> n, eff |-> <<>>], ApiMap(st, f, n, <<>>))
+        /\ \E f \in IntF1, n \in IntNodes, eff \in EffChoices :
+             Do([a |-> "map", f |-> f, in |-> n, eff |-> eff], ApiMap(st, f, n, eff))
      \/ /\ "pmap" \in Ctors     \* maps producing / consuming pairs
         /\ \/ \E f \in Fs1 \cap {"dup", "pair0", "halfp"}, n \in IntNodes :
                 Do([a |-> "map", f |-> f, in |-> n, eff |-> <<>>], ApiMap(st, f, n, <<>>))
@@ -181,15 +193,15 @@ Begin ==
   /\ coneB' = ConeOf(st, ObservedNodes(st, LiveObs(st) \cup LinkedObs(st)), {})
   /\ acts' = acts + 1
 Step ==
-  /\ Ok(st) /\ st.status = "stabilising" /\ (st.chain # 0 \/ ~HeapEmpty(st))
+  /\ Ok(st) /\ ~st.poisoned /\ st.status = "stabilising" /\ (st.chain # 0 \/ ~HeapEmpty(st))
   /\ st' = StabiliseStep(st)
   /\ UNCHANGED <<hist, coneB, acts>>
 EndA ==
-  /\ Ok(st) /\ st.status = "stabilising" /\ st.chain = 0 /\ HeapEmpty(st)
+  /\ Ok(st) /\ ~st.poisoned /\ st.status = "stabilising" /\ st.chain = 0 /\ HeapEmpty(st)
   /\ st' = StabiliseEndA(st)
   /\ UNCHANGED <<hist, coneB, acts>>
 HandlersStep ==
-  /\ Ok(st) /\ st.status = "handlers" /\ st.runq # <<>>
+  /\ Ok(st) /\ ~st.poisoned /\ ~st.poisoned /\ st.status = "handlers" /\ st.runq # <<>>
   /\ st' = StabiliseHandlersStep(st)
   /\ UNCHANGED <<hist, coneB, acts>>
 
@@ -205,7 +217,7 @@ SortedInv(s) ==
 Expect(s) ==
   [a |-> "expect",
    reads |-> [o \in 1..s.no |-> IF s.ostate[o] = "inuse" /\ ~ExactCone(s, s.onode[o])
-                                 THEN <<"skip", "">> ELSE RefRead(s, o)],
+                                 THEN <<"skip", "">> ELSE RefReadS(s, o)],
    inv |-> SortedInv(s),
    cone |-> LET c == coneB \cup ConeOf(s, ObservedNodes(s, LinkedObs(s)), {}) IN
             [n \in 1..s.n |-> n \in c],
@@ -215,23 +227,44 @@ Expect(s) ==
                         LET m == CHOOSE x \in t : \A y \in t : (x.o < y.o \/ (x.o = y.o /\ x.t <= y.t))
                         IN <<m>> \o Go(t \ {m})
            IN Go(d),
+   inreads |-> s.readLog,
+   rets |-> s.retLog,
    stable |-> IsStable(s),
    cells |-> [n \in 1..s.n |-> s.cell[n]]]
 Finish ==
-  /\ Ok(st) /\ st.status = "handlers" /\ st.runq = <<>>
+  /\ Ok(st) /\ ~st.poisoned /\ st.status = "handlers" /\ st.runq = <<>>
   /\ st' = StabiliseFinish(st)
   /\ hist' = Append(hist, Expect(st))
   /\ UNCHANGED <<coneB, acts>>
 
+\* a panic escaped the last public call and is caught by the caller
+PanicClass(s) == CASE s.panic = "panic:user" -> "user" [] s.panic = "panic:status" -> "status"
+                   [] s.panic = "panic:height" -> "height" [] s.panic = "panic:cyclic" -> "cyclic"
+                   [] OTHER -> "other"
+RecoverA ==
+  /\ ~Ok(st)
+  /\ st' = Recover(st)
+  /\ hist' = Append(hist, [a |-> "expect_panic", class |-> PanicClass(st),
+                           reads |-> [o \in 1..st.no |-> RefReadS(Recover(st), o)]])
+  /\ UNCHANGED <<coneB, acts>>
+\* C13/C19: a further stabilise on a poisoned state refuses to run
+BeginPoisoned ==
+  /\ Ok(st) /\ st.poisoned /\ st.status # "idle" /\ acts < MaxActs
+  /\ st' = StabiliseBegin(ApiClearLogs(st))
+  /\ hist' = Append(hist, [a |-> "stabilise"])
+  /\ acts' = acts + 1
+  /\ UNCHANGED coneB
+
 Init == /\ st = InitState(MaxH) /\ hist = <<>> /\ coneB = {} /\ acts = 0
 Next == Create \/ Write \/ SubscribeA \/ UnsubscribeA \/ Observe \/ ObserveLeaked \/ DropObs \/ Disallow
-        \/ Begin \/ Step \/ EndA \/ HandlersStep \/ Finish
+        \/ Begin \/ Step \/ EndA \/ HandlersStep \/ Finish \/ RecoverA \/ BeginPoisoned
 Spec == Init /\ [][Next]_vars
 View == <<st>>
 
 ---------------------------------------------------------------------------
 (* Invariants (property predicates of IncrRef on the engine state)          *)
-NoPanic == Ok(st)
+NoPanic == Ok(st) \/ st.panic = "panic:user" \/ (st.poisoned /\ st.panic = "panic:status")
+           \/ (("stabilise" \in Effs) /\ st.panic = "panic:status")
 InvObsCorrect == ObsCorrect(st)
 InvInvalidity == Invalidity(st)
 InvAtMostOnce == AtMostOnce(st)
@@ -242,9 +275,11 @@ InvAudit == Audit(st)
 InvExactUpdates == ExactUpdates(st)
 
 \* behaviour export: one REPLAY line per maximal behaviour
-Done == st.status = "idle" /\ (st.round >= MaxRounds \/ acts >= MaxActs) /\ Len(hist) > 0
-        /\ hist[Len(hist)].a = "expect"
-InvExport == (Export /\ Done) => PrintT(<<"REPLAY", ToJson(hist)>>)
+Done == /\ Ok(st) /\ Len(hist) > 0
+        /\ \/ (st.status = "idle" /\ (st.round >= MaxRounds \/ acts >= MaxActs) /\ hist[Len(hist)].a = "expect")
+           \/ (st.poisoned /\ acts >= MaxActs /\ hist[Len(hist)].a = "expect_panic")
+InvExport == (Export /\ Done /\ (ExportMod = 1 \/ RandomElement(1..ExportMod) = 1))
+                => PrintT(<<"REPLAY", ToJson(hist)>>)
 
 \* compact view of a state for counterexamples
 Alias == [status |-> st.status, panic |-> st.panic, num |-> st.num, chain |-> st.chain,
